@@ -133,6 +133,25 @@ def _fn_files():
     return {"coq": text, "translated": done, "refused": failed}
 
 
+@unit("fn_files2")
+def _fn_files2():
+    """FileAnonymizer.anonymize_io once more, this time calling the GENERATED stage functions (G_fn_sir2, G_fn_ip2) instead of leaving the stages
+    uninterpreted: the whole per-line pipeline as translated code (refine/RefPipeline.v)"""
+    import os
+
+    sys.path.insert(0, os.path.dirname(os.path.abspath(__file__)))
+    import translate
+    import netconan.anonymize_files as pm
+    import netconan.sensitive_item_removal as sir
+    import netconan.ip_anonymization as ipa
+
+    text, done, failed = translate.translate_module(
+        pm.__file__, pm, wanted=["anonymize_io"],
+        xfuncs={"replace_matching_item": (sir, "G_fn_sir2"), "anonymize_as_numbers": (sir, "G_fn_sir2"), "anonymize_ip_addr": (ipa, "G_fn_ip2", {"method_thread_oracles": ("anonymize", "deanonymize")})},
+        field_classes={"anonymizer_sensitive_word": ("SensitiveWordAnonymizer", sir, "G_fn_sir2")}, io_lists=True)
+    return {"coq": text.replace("gen_FileAnonymizer__anonymize_io", "gen_FileAnonymizer__anonymize_io_all"), "translated": done, "refused": failed}
+
+
 @unit("fn_cli")
 def _fn_cli():
     import os
